@@ -222,8 +222,8 @@ def case_cnf_to_bdd(bindir, work, seed, i):
     d = os.path.join(work, "c2b%d" % i)
     os.makedirs(d, exist_ok=True)
     order = rng.choice(["auto_minfill", "auto_force"])
-    # sometimes an empty clause (a lone 0); FORCE on an empty clause is outside the domain (S9)
-    if order == "auto_minfill" and rng.random() < 0.08:
+    # sometimes an empty clause (a lone 0), under either order heuristic
+    if rng.random() < 0.08:
         clauses.insert(rng.randrange(len(clauses) + 1), [])
     # layouts: one clause per line, several clauses per line, clauses wrapped over lines
     # (also with the terminating 0 alone on a line), comment lines
